@@ -1,6 +1,6 @@
 """Data for MANIFEST.json (see manifest_gen.py)."""
 
-HOOK_COMMITS = []
+HOOK_COMMITS = ["d05b882"]
 
 NOTES = ("Every check is `./check Cxx`: regenerate translated tables from /repo, `lake build` the property's theorems, "
          "audit axioms, rebuild the harness against /repo's working tree, run implementation and Lean model on the same "
@@ -18,8 +18,19 @@ CHECKS = {
         "note": "Trusted: Lean kernel (axioms propext, Classical.choice, Quot.sound at most), hand-written model + correspondence harness, BTreeMap key distinctness.",
         "technique": "Lean 4 proof over hand-written model + differential correspondence with the Rust API",
     },
+    "C17": {
+        "text": ("Theorems for every history of add/remove/replace/clear/deploy of any length over any models: the representation invariant (indexes describe the list; "
+                 "namespaces and names pairwise distinct) is preserved by every step and holds in every reachable state; the stored list refines the abstract "
+                 "list specification step by step with equal Ok/Err results; add succeeds iff namespace and name are fresh; remove/replace leave no stale reservation "
+                 "(replace always succeeds); evaluation is possible exactly for the models stored and building at the last deploy with no modification since. "
+                 "The model mirrors workspace.rs statement by statement and is tied to it by exhaustive short histories and random long ones, observed through the "
+                 "verif_snapshot hook and through add errors / evaluate_invocable."),
+        "design_ref": "DESIGN.md §4 C17",
+        "note": "Trusted: Lean kernel, model + harness, std HashMap semantics; ModelEvaluator::new outcome is a parameter (builds flag).",
+        "technique": "Lean 4 invariant + refinement proof over hand-written state-machine model + differential correspondence (hook snapshot)",
+    },
 }
 
 _PENDING = "check under construction in this session; not claimed yet"
 NOT_APPLICABLE = {pid: _PENDING for pid in
-                  ["C01", "C02", "C03", "C04", "C05", "C06", "C07", "C08", "C09", "C10", "C11", "C12", "C13", "C14", "C15", "C17", "C18", "C19", "C20"]}
+                  ["C01", "C02", "C03", "C04", "C05", "C06", "C07", "C08", "C09", "C10", "C11", "C12", "C13", "C14", "C15", "C18", "C19", "C20"]}
